@@ -11,7 +11,10 @@ request  {"specs": [spec…], "frame": {"nrows": n, "cols": [{"name", "dtype", "
   val    {"n": "p/q"} | {"s": "text"} | {"b": true|false} | null
 The kind of a frame column is looked up in the GENERATED table `Gen.kindTable` (pandas
 materializer) by its dtype label.
+optional {"derive": [{"op":"part","i"} | {"op":"subset","picks":[term index…]} | {"op":"pickle"}…],
+          "fit_specs": [spec…], "derived": [spec…], "replay_on": "model" | "live"}  (see `handle`)
 answer   {"error": <exception class>} | {"results": [{"names","values","warn","branches","generated"}…]}
+         with "derive": also "derived_diff": [field…] (empty = the live derived spec is the model's), or {"derive_error"}
          always with "pooled": the pooled factor expressions and "kinds": the kind per frame column. -/
 namespace FormulaicVerif.Engines.C09
 open Lean FormulaicVerif.Model.Reuse FormulaicVerif.Engines
@@ -128,16 +131,57 @@ def resultJ (r : Result) : Json :=
     ("branches", jstrs (r.branches.map branchStr)),
     ("generated", jlist (r.generated.map jstrs))]
 
+def stepOf (j : Json) : Step :=
+  match jstr j "op" with
+  | "part" => .part (jnat j "i")
+  | "subset" => .subset ((jarr j "picks").map asNat)
+  | _ => .roundTrip
+
+/-- which recorded field of a derived spec differs between the model's derivation and the live object -/
+def specDiff (m l : Spec) : List String :=
+  (if m.terms = l.terms then [] else ["formula terms"]) ++
+  (if m.structure_ = l.structure_ then [] else ["structure"]) ++
+  (if m.encoderState = l.encoderState then []
+   else ["encoder_state (model keeps " ++ toString (m.encoderState.map (·.1)) ++ ", live has "
+         ++ toString (l.encoderState.map (·.1)) ++ ")"]) ++
+  (if m.transformState = l.transformState then [] else ["transform_state"]) ++
+  (if m.naAction = l.naAction ∧ m.ensureFullRank = l.ensureFullRank ∧ m.output = l.output then []
+   else ["na_action/ensure_full_rank/output"])
+
+def specsDiff (ms ls : List Spec) : List String :=
+  if ms.length ≠ ls.length then ["number of specs"]
+  else (ms.zip ls).flatMap (fun p => specDiff p.1 p.2)
+
+def answer (specs : List Spec) (fr : Frame) (run : Except Err (List Result)) (extra : List (String × Json)) : Json :=
+  let extra := extra ++ [
+    ("pooled", jstrs ((pooledFactors specs).map (·.expr))),
+    ("kinds", jlist (fr.cols.map (fun c => jstrs [c.1, kindStr c.2.kind])))]
+  match run with
+  | .error e => Json.mkObj (("error", Json.str (errName e)) :: extra)
+  | .ok rs => Json.mkObj (("results", jlist (rs.map resultJ)) :: extra)
+
+/-- without `"derive"`: `replay` on `"specs"`. With `"derive"` (a history between fit and reuse):
+the model derives the spec(s) itself from `"fit_specs"` (`Model.Reuse.derive`), reports how they
+differ from the live derived spec(s) `"derived"`, and — `"replay_on": "model"` — replays ITS OWN
+derived specs (`replayDerived`); `"replay_on": "live"` (the derived spec was hand-edited afterwards)
+replays `"specs"`. -/
 def handle (j : Json) : Json :=
   match frameOf (jval j "frame") with
   | .error e => jerr ("bad-request: " ++ e)
   | .ok fr =>
     let specs := (jarr j "specs").map specOf
-    let extra : List (String × Json) := [
-      ("pooled", jstrs ((pooledFactors specs).map (·.expr))),
-      ("kinds", jlist (fr.cols.map (fun c => jstrs [c.1, kindStr c.2.kind])))]
-    match replay specs fr (strs j "order") with
-    | .error e => Json.mkObj (("error", Json.str (errName e)) :: extra)
-    | .ok rs => Json.mkObj (("results", jlist (rs.map resultJ)) :: extra)
+    let order := strs j "order"
+    match j.getObjVal? "derive" with
+    | .ok (.arr steps) =>
+      let fit := (jarr j "fit_specs").map specOf
+      let live := (jarr j "derived").map specOf
+      let steps := steps.toList.map stepOf
+      match derive fit steps with
+      | .error e => Json.mkObj [("derive_error", Json.str (errName e))]
+      | .ok ds =>
+        let extra := [("derived_diff", jstrs (specsDiff ds live))]
+        if jstr j "replay_on" == "live" then answer specs fr (replay specs fr order) extra
+        else answer ds fr (replayDerived fit steps fr order) extra
+    | _ => answer specs fr (replay specs fr order) []
 
 end FormulaicVerif.Engines.C09
